@@ -62,8 +62,10 @@ class Built:
 
     def submit(self, n, init):
         if n not in self.outs:
-            self.outs[n] = self.objs[n].submit(run_mode=RunMode.DRY_RUN,
-                                               init_tasks=[self.objs[i] for i in init])
+            # the caller keeps the list it gave as init_tasks (and may go on using it)
+            self.initlists = getattr(self, "initlists", {})
+            self.initlists[n] = [self.objs[i] for i in init]
+            self.outs[n] = self.objs[n].submit(run_mode=RunMode.DRY_RUN, init_tasks=self.initlists[n])
         return self.outs[n]
 
     def build(self):
@@ -231,6 +233,14 @@ class Built:
                 elif k == "preappend":
                     # the other way to the pre-task list: the list handed out by the pre_tasks property
                     o.pre_tasks.append(*[self.allobjs[i] for i in op["ids"]])
+                    out.append("ok")
+                elif k == "initappend":
+                    # the caller appends to the list object it gave as init_tasks at submission: its own list, so
+                    # nothing to reject - and nothing of the submitted task may change
+                    lst = getattr(self, "initlists", {}).get(op["n"])
+                    if lst is None:
+                        raise AttributeError("not submitted through the description")
+                    lst.extend(self.allobjs[i] for i in op["ids"])
                     out.append("ok")
                 elif k == "inplace":
                     # the list / dict held as a parameter value, modified in place through the parameter property
